@@ -23,7 +23,7 @@ The six regex options reach the six fields of `FileFilter` in the order of main.
   readable source: the report is, byte for byte, the report of the run without any `--excl-*` option;
   `C16_run_unreadable_record`: per file.
 -/
-import GrcovModel.Props.C02Run
+import GrcovModel.Lemmas.CliRunAll
 namespace Grcov.Props.C16
 open Grcov AList Grcov.Rewrite Grcov.FileFilter Grcov.Cli.RunAll
 
